@@ -54,6 +54,7 @@ type c11Behaviour struct {
 	LoseCmd   string `json:"lose_negotiation_cmd,omitempty"`
 	LoseFrom  int    `json:"lose_from,omitempty"`
 	LoseCount int    `json:"lose_count,omitempty"`
+	LoseWhat  string `json:"lose_what,omitempty"` // "" = the query never reaches the server | "answer" = the server acts on it, its answer is lost
 	DataSeed  int64  `json:"data_seed"`
 }
 
@@ -109,7 +110,7 @@ func (b *c11Behaviour) Class() string {
 		p = append(p, "no-edns0")
 	}
 	if b.LoseCmd != "" {
-		p = append(p, fmt.Sprintf("negotiation-loses-%s#%d+%d", b.LoseCmd, b.LoseFrom, b.LoseCount))
+		p = append(p, fmt.Sprintf("negotiation-loses-%s%s#%d+%d", b.LoseWhat, b.LoseCmd, b.LoseFrom, b.LoseCount))
 	}
 	if len(p) == 0 {
 		return "transparent"
@@ -166,22 +167,23 @@ type c11Path struct {
 	answered map[uint16]bool
 	comm     *vClientComm
 
-	mu        sync.Mutex
-	exch      int64
-	phase     int // 0 = handshake, 1 = data
-	tripped   bool
-	tripStep  string
-	tripStack string
-	pending   bool
-	cur       int
-	window    [64]int // fates of the last exchanges
-	wpos      int
-	cmds      [64]byte
-	fateCount map[int]int64
-	last      int // fate of the most recent exchange
-	maxAnswer int
-	maxQuery  int
-	cmdSeen   [256]int // queries per command letter (transient fault)
+	mu         sync.Mutex
+	exch       int64
+	phase      int // 0 = handshake, 1 = data
+	tripped    bool
+	tripStep   string
+	tripStack  string
+	pending    bool
+	cur        int
+	window     [64]int // fates of the last exchanges
+	wpos       int
+	cmds       [64]byte
+	fateCount  map[int]int64
+	last       int // fate of the most recent exchange
+	maxAnswer  int
+	maxQuery   int
+	cmdSeen    [256]int // queries per command letter (transient fault)
+	loseAnswer bool
 }
 
 func newC11Path(b *c11Behaviour) *c11Path {
@@ -318,8 +320,12 @@ func (p *c11Path) Query(q *mdns.Msg) *mdns.Msg {
 		k := p.cmdSeen[cmd]
 		p.cmdSeen[cmd]++
 		if k >= b.LoseFrom && k < b.LoseFrom+b.LoseCount {
-			p.push(c11QLostOnce)
-			return nil
+			if b.LoseWhat == "answer" {
+				p.loseAnswer = true // delivered to the server; what comes back is dropped (see Answer)
+			} else {
+				p.push(c11QLostOnce)
+				return nil
+			}
 		}
 	}
 	if b.StripEdns && q.IsEdns0() != nil {
@@ -430,6 +436,11 @@ func (p *c11Path) Answer(q *mdns.Msg, a *mdns.Msg, wire []byte) *mdns.Msg {
 	defer p.mu.Unlock()
 	fate := p.cur
 	b := p.b
+	if p.loseAnswer {
+		p.loseAnswer = false
+		p.push(fate | c11QLostOnce)
+		return nil
+	}
 	if p.answered != nil && len(q.Question) > 0 && !p.answered[q.Question[0].Qtype] {
 		// the resolver does not serve this type: whatever the tunnel server said is replaced
 		r := new(mdns.Msg)
@@ -1056,6 +1067,15 @@ func c11Behaviours(rec *vcommon.Rec) []*c11Behaviour {
 					b := bases[k%len(bases)]
 					b.LoseCmd, b.LoseFrom, b.LoseCount = cmd, from, cnt
 					add(b)
+					// the same fault with the ANSWERS lost: the server has acted on the request, the client does not know
+					// (only fewer in a row than the client's five attempts per step: when all five answers of the codec switch are
+					// lost the two sides cannot agree any more - the client falls back, the server has switched - and nothing in
+					// the protocol lets the client find out; that is a run of losses, not a behaviour of the path, and is not judged)
+					if cnt <= 2 {
+						b2 := b
+						b2.LoseWhat = "answer"
+						add(b2)
+					}
 				}
 			}
 		}
@@ -1072,7 +1092,7 @@ func c11Behaviours(rec *vcommon.Rec) []*c11Behaviour {
 				add(b)
 			}
 		}
-		for len(out) < 712 {
+		for len(out) < 760 {
 			add(random())
 		}
 	}
